@@ -314,6 +314,10 @@ func ttHandler(ctx *engine.Ctx) {
 		{Cache: 0, RealMetrics: true, Conns: []tcpx.ConnSpec{{Class: "ok", Cipher: 1, Up: 10, Down: 100}, {Class: "replay-server", Cipher: 1}}},
 		{RealMetrics: true, Conns: []tcpx.ConnSpec{{Class: "relay-client", Cipher: 2, Up: 5, Down: 5}, {Class: "cipher", Cipher: 0}, {Class: "bad-addr", Cipher: 3, Var: 1}}},
 		{RealMetrics: true, Conns: []tcpx.ConnSpec{{Class: "relay-target", Cipher: 0}, {Class: "refused", Cipher: 1, Up: 3}}},
+		// authenticated, then silent for 10 s before the address arrives (valid / malformed): the
+		// tunnel is open from the moment the client is authenticated
+		{RealMetrics: true, Conns: []tcpx.ConnSpec{{Class: "stall", Cipher: 0, Up: 10, Down: 10}, {Class: "stall-bad-addr", Cipher: 1}}},
+		{RealMetrics: true, Conns: []tcpx.ConnSpec{{Class: "stall-bad-addr", Cipher: 2}, {Class: "ok", Cipher: 3, Up: 4, Down: 4}, {Class: "stall", Cipher: 3, Up: 1, Down: 1}}},
 	}
 	for i, s := range specs {
 		if !ctx.Mine(int64(i)) {
@@ -339,7 +343,13 @@ func ttHandler(ctx *engine.Ctx) {
 				if co == nil || co.Rec == nil || !co.WantAuth || len(co.Rec.Closed) != 1 || len(co.Rec.AuthAt) == 0 {
 					continue
 				}
-				want[co.Key.ID] += (co.Rec.Closed[0].At - co.Rec.AuthAt[0]).Seconds()
+				from := co.Rec.AuthAt[0]
+				if co.AuthSentAt >= 0 {
+					// the client is authenticated at the instant its authenticating bytes arrive, whenever
+					// the server chooses to report it
+					from = co.AuthSentAt
+				}
+				want[co.Key.ID] += (co.Rec.Closed[0].At - from).Seconds()
 			}
 			got, _, err := scrape(o.Metrics.(prometheus.Collector))
 			if err != nil {
